@@ -11,7 +11,7 @@ Op `pair_eval`: a base election and a perturbation of it, both evaluated by the 
                       (a new ballot changes the trimming cutoff and every mean: not an improvement of w alone)
   'bucklin'           PreferenceAddition(): kinds 'lift', 'new' (bullet ballot)
   'bucklin_whole'     PreferenceAddition(split_equal_rankings=False): the same
-  'pa_list', 'pa_list_whole', 'pa_call'
+  'pa_list', 'pa_list_whole', 'pa_call', 'pa_call_whole'
                       PreferenceAddition(coefficients=<non-increasing list> | lambda i: 1/(i+1)): kinds 'lift', 'new' (bullet)
   'copeland', 'minimax_wv', 'minimax_margins', 'schulze'
                       PreConverted(RankedToCondorcetVotes(), ...): kinds 'lift', 'new' (bullet ballot), 'new_full'
@@ -26,7 +26,11 @@ bullet ballot (proved harmless for all of them), kind 'new_full' is w followed b
 candidates.  'new_full' holds for minimax with margins (proved: minimax_monotone_new_full) and FAILS, as a property
 of the voting rule itself, for Bucklin (both variants), Copeland, minimax with winning votes and Schulze: one open
 known finding per rule (signature '<rule>:winner_monotone:new_full', Lean witness <rule>_new_full_witness); a failing
-lift or bullet ballot of the same rule has another signature ('...:lift', '...:new') and stays a VIOLATION.  Tie-free base: the one-seat result
+lift or bullet ballot of the same rule has another signature ('...:lift', '...:new') and stays a VIOLATION.  A further upward
+move, kind 'join': w leaves its place and joins the rank directly above it (a tie with its former superior); it is issued for
+every ranked rule (SequenceBased: convex sequences only), fails at rule level only for PreferenceAddition with UNSPLIT shared ranks
+(three open known findings '<rule>:winner_monotone:join'); a result in which nobody is elected any more has the clause
+'winner_unelected:<kind>' and is never masked.  Tie-free base: the one-seat result
 is [w] and, for Copeland / minimax / Schulze, w is strictly first in the rule's own relation (recomputed here
 from the ballots).  Divisor rules: no tie-freeness; seats inside an unresolved Tie are counted for nobody.
 """
@@ -50,9 +54,13 @@ REQUIRED = ['ha_house_monotone', 'ha_house_monotone_general', 'ha_vote_monotone'
             'copeland_monotone_lift', 'copeland_monotone_bullet', 'minimax_monotone_lift', 'minimax_monotone_bullet',
             'schulze_monotone', 'schulze_monotone_lift', 'schulze_monotone_bullet',
             'coef_list_ok', 'preference_addition_monotone_lift', 'preference_addition_monotone_bullet',
-            'preference_addition_default_monotone_lift', 'minimax_monotone_added', 'minimax_monotone_new_full', 'bucklin_new_full_witness', 'bucklin_default_new_full_witness',
+            'preference_addition_default_monotone_lift', 'minimax_monotone_added', 'minimax_monotone_new_full', 'bucklin_whole_join_witness', 'preference_addition_whole_join_witness', 'bucklin_new_full_witness', 'bucklin_default_new_full_witness',
             'copeland_new_full_witness', 'minimax_wv_new_full_witness', 'schulze_new_full_witness']
-UNPROVED = ['score_truncated_monotone_raise (ScoreVoting with truncation / min_count / mean: evaluated by the {score: count} table '
+UNPROVED = ['*_monotone_join (the move "w joins the rank directly above it", Lean `joinAbove`): generated for every ranked rule, '
+            'checked by correspondence and oracle; holds on the implementation for the positional rules (SequenceBased: convex sequences '
+            'only), Copeland, minimax, Schulze and PreferenceAddition with split shared ranks; refuted by witness theorems for unsplit '
+            'shared ranks; no positive theorem yet',
+            'score_truncated_monotone_raise (ScoreVoting with truncation / min_count / mean: evaluated by the {score: count} table '
             'model of C12, checked by correspondence and oracle on every raise; the theorems cover the plain sum with any '
             'numeric unscored value)',
             'approval_split_monotone (ApprovalToSimpleVotes(split=True), satisfaction approval: modelled as evalApprovalSplit, checked by '
@@ -71,8 +79,9 @@ BULLET_RULES = ['bucklin', 'bucklin_whole', 'copeland', 'minimax_wv', 'minimax_m
 DEC_OK = ['plurality', 'approval', 'borda', 'modified_borda', 'fixed_top', 'copeland', 'minimax_wv', 'minimax_margins', 'minimax_pwo',
           'schulze']
 # PreferenceAddition with a coefficient list (last entry beyond its end) / a callable: the Bucklin family
-PA_RULES = ['pa_list', 'pa_list_whole', 'pa_call']
-PA_LISTS = [['1', '1/2', '1/3'], ['1', '1', '1/2'], ['1'], ['1', '1/2'], ['2', '1', '1', '1/2'], ['1', '0'], ['1', '3/4', '1/2', '1/4']]
+PA_RULES = ['pa_list', 'pa_list_whole', 'pa_call', 'pa_call_whole']
+PA_WHOLE = ['pa_list_whole', 'pa_call_whole']
+PA_LISTS = [['1', '1/2', '1/3', '1/4'], ['1', '1/2', '1/3'], ['1', '1', '1/2'], ['1'], ['1', '1/2'], ['2', '1', '1', '1/2'], ['1', '0'], ['1', '3/4', '1/2', '1/4']]
 RANKED_RULES = POSITIONAL + BULLET_RULES + PA_RULES
 ALL_RULES = ['ha', 'plurality'] + POSITIONAL + ['approval', 'score_sum', 'score_trunc'] + BULLET_RULES
 
@@ -165,6 +174,20 @@ def strip(ballot, w):
 def lift(ballot, w, i):
     s = strip(ballot, w)
     return s[:i] + [w] + s[i:]
+
+
+def join_above(ballot, w):
+    """w leaves its place and JOINS the place directly above it (a tie with the former superior); None when w is
+    unranked or stands first"""
+    p = pos_of(ballot, w)
+    if p is None or p == 0:
+        return None
+    out = [it for it in ballot[:p - 1]]
+    sup = ballot[p - 1]
+    out.append({'set': sorted((sup['set'] if isinstance(sup, dict) else [sup]) + [w])})
+    out += strip([ballot[p]], w)
+    out += ballot[p + 1:]
+    return out
 
 
 def lift_positions(ballot, w):
@@ -415,7 +438,7 @@ def pa_coef(rule, param):
     if rule in ('pa_list', 'pa_list_whole'):
         seq = [Fraction(x) for x in param]
         return lambda i: seq[i] if i < len(seq) else seq[-1]
-    if rule == 'pa_call':
+    if rule in ('pa_call', 'pa_call_whole'):
         return lambda i: Fraction(1, i + 1)
     return lambda i: Fraction(1)
 
@@ -459,7 +482,7 @@ def ref_winner(rule, param, prof):
     if rule == 'bucklin_whole':
         return ref_bucklin(prof, False)
     if rule in PA_RULES:
-        return ref_bucklin(prof, rule != 'pa_list_whole', pa_coef(rule, param))
+        return ref_bucklin(prof, rule not in PA_WHOLE, pa_coef(rule, param))
     if rule in ('copeland', 'minimax_wv', 'minimax_margins', 'minimax_pwo', 'schulze'):
         for w in all_cands(prof):
             if strict_first(rule, prof, w):
@@ -546,6 +569,8 @@ def _evaluator(rule, param, stype=None):
         return vseq.PreferenceAddition(coefficients=[_num(x) for x in param], split_equal_rankings=False)
     if rule == 'pa_call':
         return vseq.PreferenceAddition(coefficients=lambda i: Fraction(1, i + 1))
+    if rule == 'pa_call_whole':
+        return vseq.PreferenceAddition(coefficients=lambda i: Fraction(1, i + 1), split_equal_rankings=False)
     conv = vconv.RankedToCondorcetVotes()
     if rule == 'copeland':
         return vcore.PreConverted(conv, vcond.Copeland(second_order=bool(param)))
@@ -564,7 +589,11 @@ def _eval(rule, param, prof, wtype=None, stype=None, ev=None):
     votes = py_profile(rule, prof, wtype, stype)
     if ev is None:
         ev = _evaluator(rule, param, stype)
-    return guarded(lambda: enc_selection(ev.evaluate(votes, 1), NAMES))
+    r = guarded(lambda: enc_selection(ev.evaluate(votes, 1), NAMES))
+    if r == {'err': 'Timeout'}:
+        # the 5 s alarm fired on a loaded machine: these evaluations take milliseconds, so ask once more with a long limit
+        r = guarded(lambda: enc_selection(ev.evaluate(votes, 1), NAMES), 60)
+    return r
 
 
 def impl(case):
@@ -618,7 +647,11 @@ def oracle(case, obs):
     if not strict_first(rule, case['base'], w):
         return []                         # Copeland / minimax / Schulze: w not strictly first in the rule's relation
     if p != [w]:
-        out.append((f'winner_monotone:{case["kind"]}', f'{rule}: base elects [{w}], after {case["kind"]} the result is {p}'))
+        if p == [] or isinstance(p, dict):
+            # nobody is elected any more (or the evaluation is refused): never a property of a voting rule
+            out.append((f'winner_unelected:{case["kind"]}', f'{rule}: base elects [{w}], after {case["kind"]} the result is {p}'))
+        else:
+            out.append((f'winner_monotone:{case["kind"]}', f'{rule}: base elects [{w}], after {case["kind"]} the result is {p}'))
     return out
 
 
@@ -742,6 +775,20 @@ def _mk(rule, param, base, pert, w, kind, move, tags):
             'move': move, '_tags': list(tags)}
 
 
+def _convex(seq):
+    d = [a - b for a, b in zip(seq, seq[1:])]
+    return all(x >= y for x, y in zip(d, d[1:]))
+
+
+def join_ok(rule, param):
+    """the move 'w joins the rank directly above it' is issued for every ranked rule; for SequenceBased only with convex
+    sequences (score drops that never grow), because otherwise the candidates BELOW w, who all move up one place, can
+    gain more than w does — a property of such a score sequence, not of the code"""
+    if rule == 'sequence':
+        return _convex([Fraction(x) for x in param] + [Fraction(0), Fraction(0)])
+    return True
+
+
 def ranked_moves(rule, param, base, w, rng=None, limit=None, extra_tags=()):
     """every single-unit lift of w on every ballot, plus the admissible new ballot(s)"""
     out = []
@@ -762,8 +809,14 @@ def ranked_moves(rule, param, base, w, rng=None, limit=None, extra_tags=()):
                 tags.append('fractional_weight')
             if any(nb == x for x, _ in base):
                 tags.append('merges_with_existing')
+            if rule in PA_WHOLE or rule == 'bucklin_whole':
+                p1 = pos_of(b, w)
+                if p1 is not None and p1 >= 1 and isinstance(b[p1], dict):
+                    tags.append(f'{rule}:lift_out_of_shared_below_first')
+                    if i == p1:
+                        tags.append('whole:lift_just_above_former_co_ranked')
             if rule in PA_RULES:
-                if rule == 'pa_call':
+                if rule in ('pa_call', 'pa_call_whole'):
                     tags.append('bucklin_coef:callable')
                 else:
                     if len(param) < max(len(x) for x, _ in base):
@@ -779,6 +832,18 @@ def ranked_moves(rule, param, base, w, rng=None, limit=None, extra_tags=()):
                     tags.append('modified_borda:lift_lengthens_longest')
             out.append(_mk(rule, param, base, replace_unit(base, bi, nb), w, 'lift',
                            {'kind': 'lift', 'ballot': bi, 'pos': i}, tags))
+    if join_ok(rule, param):
+        longest = max(len(x) for x, _ in base)
+        for bi, (b, s) in enumerate(base):
+            nb = join_above(b, w)
+            if nb is None or (rule == 'borda' and len(nb) > len(cs)):
+                continue
+            tags = [f'{rule}:join'] + list(extra_tags)
+            if len(b) == longest and len(nb) < len(b) and sum(1 for x, _ in base if len(x) == longest) == 1:
+                tags.append('join_shortens_longest_ballot')
+            if isinstance(b[pos_of(b, w) - 1], dict):
+                tags.append('join_existing_shared_rank')
+            out.append(_mk(rule, param, base, replace_unit(base, bi, nb), w, 'join', {'kind': 'join', 'ballot': bi}, tags))
     if rule in PA_RULES:
         out.append(_mk(rule, param, base, add_ballot(base, [w]), w, 'new', {'kind': 'new', 'ballot': [w]},
                        [f'{rule}:new'] + list(extra_tags)))
@@ -978,8 +1043,8 @@ def gen_pa(rng, n_prof):
     """PreferenceAddition with coefficient lists shorter than the ballots: 4-6 candidates, long ballots, the lifts of
     the reference winner and (every third profile) of every candidate"""
     for k in range(n_prof):
-        rule = PA_RULES[k % 3]
-        param = rng.choice([l for l in PA_LISTS if len(l) <= 3]) if rule != 'pa_call' else None
+        rule = PA_RULES[k % len(PA_RULES)]
+        param = rng.choice([l for l in PA_LISTS if len(l) <= 3]) if rule in ('pa_list', 'pa_list_whole') else None
         m = rng.randint(4, 6)
         base = []
         for _ in range(rng.randint(2, 4)):
@@ -1089,6 +1154,72 @@ def gen_score_trunc(rng, n_prof):
                 base.append([b, str(wgt)])
         for c in score_trunc_moves(param, base, rng):
             yield c
+
+
+def _ballot_shared_anywhere(rng, m):
+    cs = list(range(m))
+    rng.shuffle(cs)
+    cs = cs[:rng.randint(min(3, m), m)]
+    if rng.random() < 0.75 and len(cs) >= 3:
+        g = rng.randint(2, min(3, len(cs) - 1))
+        at = rng.randint(0 if rng.random() < 0.25 else 1, len(cs) - g)
+        return cs[:at] + [{'set': sorted(cs[at:at + g])}] + cs[at + g:]
+    return cs
+
+
+def gen_pa_crossing(rng, n_prof):
+    """every coefficient option x both split modes on the SAME profiles, with shared ranks at every position (mostly
+    below the first place, where a coefficient other than 1 applies): default [1], Oklahoma as a list and as a callable,
+    a decreasing list; the lifts of every candidate, those out of a shared rank first"""
+    options = [('bucklin', None), ('bucklin_whole', None), ('pa_list', ['1', '1/2', '1/3', '1/4']),
+               ('pa_list_whole', ['1', '1/2', '1/3', '1/4']), ('pa_list', ['1', '1', '1/2']), ('pa_list_whole', ['1', '1', '1/2']),
+               ('pa_list_whole', ['2', '1', '1', '1/2']), ('pa_call', None), ('pa_call_whole', None)]
+    for _ in range(n_prof):
+        m = rng.randint(3, 5)
+        base = []
+        for _ in range(rng.randint(3, 5)):
+            b = _ballot_shared_anywhere(rng, m)
+            if all(b != x for x, _ in base):
+                base.append([b, str(rng.choice([1, 2, 3, 4, 6, 9]))])
+        for rule, param in options:
+            rw = ref_winner(rule, param, base)
+            for c2 in all_cands(base):
+                cases = ranked_moves(rule, param, base, c2, extra_tags=('pa_crossing',))
+                cases = [c for c in cases if c['kind'] != 'new_full']
+                first = [c for c in cases if any('lift_out_of_shared' in t for t in c['_tags'])]
+                other = [c for c in cases if c not in first]
+                cases = first[:4] + rng.sample(other, min(len(other), 2 if c2 != rw else 4))
+                if c2 == rw:
+                    _tag_premise(cases, rule)
+                for c in cases:
+                    yield c
+
+
+def gen_join_long(rng, n_prof):
+    """one longest ballot on which a candidate stands last, short ballots elsewhere, so that the late rounds / places decide:
+    the joins (and lifts) of every candidate, for every ranked rule in turn"""
+    for k in range(n_prof):
+        rule = RANKED_RULES[k % len(RANKED_RULES)]
+        param = _param(rng, rule)
+        m = rng.randint(3, 5)
+        cs = list(range(m))
+        rng.shuffle(cs)
+        long_b = cs[:rng.randint(3, m)]
+        base = [[long_b, str(rng.choice([1, 1, 2]))]]
+        for _ in range(rng.randint(2, 4)):
+            b = rng.sample(range(m), rng.randint(1, 2))
+            if all(b != x for x, _ in base):
+                base.append([b, str(rng.choice([1, 2, 3, 3]))])
+        rw = ref_winner(rule, param, base)
+        for c2 in all_cands(base):
+            cases = [c for c in ranked_moves(rule, param, base, c2) if c['kind'] in ('join', 'lift')]
+            joins = [c for c in cases if c['kind'] == 'join']
+            lifts = [c for c in cases if c['kind'] == 'lift']
+            cases = joins + rng.sample(lifts, min(len(lifts), 2))
+            if c2 == rw:
+                _tag_premise(cases, rule)
+            for c in cases:
+                yield c
 
 
 def gen_plurality(rng, n_prof):
@@ -1367,6 +1498,15 @@ NEW_FULL_WITNESSES = [
 ]
 
 
+# 'w joins the rank above' fails at rule level only where shared ranks are NOT split (the ballot gets one place shorter and
+# every candidate below w moves up a round)
+JOIN_WITNESSES = [
+    ('bucklin_whole', None, [[[1, 2], '1'], [[0, 2, 1], '1']], 2, 1),
+    ('pa_list_whole', ['1', '3/4', '1/2', '1/4'], [[[1, 2, 0], '1'], [[0, 2], '1']], 2, 0),
+    ('pa_call_whole', None, [[[1, 0], '2'], [[0, 2, 1], '2'], [[2, 1], '1'], [[2, 1, 0], '1']], 1, 3),
+]
+
+
 def directed_cases():
     out = []
     # the DESIGN 11.1 witness of fix 20ca103 (c=0, b=1, a=2, d=3)
@@ -1465,7 +1605,10 @@ def directed_cases():
                 [f'{rule}:new_full', f'{rule}:premise', 'directed', 'new_full_rule_level_failure', 'bucklin:lift_out_of_shared3', 'score:truncation_raise_creates_new_extreme', 'score:truncation_removes_group_and_part', 'score_trunc:raise',
                       'score_trunc:sum', 'score_trunc:mean', 'score_trunc:trunc_count', 'score_trunc:trunc_frac',
                       'score_trunc:trunc_none', 'score_trunc:unscored_value', 'score_trunc:min_count', 'score_trunc:raise_unscored',
-                      'score_trunc:premise', 'bucklin_coef:list_shorter_than_ballot',
+                      'score_trunc:premise', 'bucklin_coef:list_shorter_than_ballot', 'pa_list_whole:lift_out_of_shared_below_first',
+                      'pa_call_whole:lift_out_of_shared_below_first', 'bucklin_whole:lift_out_of_shared_below_first',
+                      'whole:lift_just_above_former_co_ranked', 'pa_crossing', 'join_shortens_longest_ballot',
+                      'join_existing_shared_rank', 'join_rule_level_failure',
                       'bucklin_coef:lift_beyond_list_end', 'bucklin_coef:list_covers_ballots', 'bucklin_coef:callable',
                       'names:int0', 'names:empty0', 'names:person', 'state:shared', 'state:shared_rev', 'weights:dec', 'weights:frac',
                       'score_sum:scores_half', 'score_sum:scores_neg', 'score_sum:scores_dec7', 'score_sum:stype_dec',
@@ -1475,7 +1618,8 @@ def directed_cases():
                       'ha:two_zero_vote_parties', 'ha:fraction_votes', 'ha:big_near_tie', 'borda:param_0', 'borda:param_2',
                       'geometric:param_3', 'geometric:param_10', 'fixed_top:param_5', 'sequence:param_10x4x4x1',
                       'sequence:param_5x3x1', 'copeland:param_0', 'copeland:param_1']
-                     + [f'{r}:big_near_tie' for r in ['plurality', 'approval'] + RANKED_RULES])
+                     + [f'{r}:big_near_tie' for r in ['plurality', 'approval'] + RANKED_RULES]
+                     + [f'{r}:join' for r in RANKED_RULES])
         out.append(c)
     # Bucklin: the winner is lifted out of a THREE-way shared rank (W=0, X=1, Y=2, Z=3); every candidate's lifts are issued
     base = [[[{'set': [0, 1, 2]}, 3], '1'], [[3, 0, 1, 2], '3'], [[0, 1, 2, 3], '1']]
@@ -1527,6 +1671,35 @@ def directed_cases():
         for c in score_trunc_moves(param, base):
             c['_tags'].append('directed')
             out.append(c)
+    # PreferenceAddition(Oklahoma coefficients, split_equal_rankings=False): the winner W (=3) shares the SECOND place with C
+    # (=2) on the ballot B > {C, W} > A and is lifted out of it into a rank of its own just above C (A=0, B=1)
+    base = [[[0, 1, 2, 3], '9'], [[2, 3], '9'], [[3, 1, 0], '6'], [[1, {'set': [2, 3]}, 0], '4']]
+    for rule, param in (('pa_list_whole', ['1', '1/2', '1/3', '1/4']), ('pa_call_whole', None), ('pa_list', ['1', '1/2', '1/3', '1/4']),
+                        ('pa_call', None), ('bucklin_whole', None), ('bucklin', None), ('pa_list_whole', ['1', '1', '1/2'])):
+        rw = ref_winner(rule, param, base)
+        for c2 in all_cands(base):
+            for c in ranked_moves(rule, param, base, c2):
+                if c['kind'] == 'new_full':
+                    continue
+                c['_tags'] += ['directed'] + ([f'{rule}:premise'] if c2 == rw else [])
+                out.append(c)
+    # 'w joins the rank directly above it' on the LONGEST ballot, short ballots elsewhere, the late rounds decide
+    # (W=0, A=1, B=2, C=3): (A,B,W) -> (A,{B,W}); Bucklin must still elect W in the third round of the split ballots
+    base = [[[0], '3'], [[1, 2, 0], '1'], [[3], '3']]
+    for rule in RANKED_RULES:
+        param = {'borda': 1, 'geometric': 2, 'fixed_top': 2, 'copeland': 1, 'sequence': ['5', '3', '1'],
+                 'pa_list': ['1', '1', '1/2'], 'pa_list_whole': ['1', '1', '1/2']}.get(rule)
+        rw = ref_winner(rule, param, base)
+        for c2 in all_cands(base):
+            for c in ranked_moves(rule, param, base, c2):
+                if c['kind'] != 'join':
+                    continue
+                c['_tags'] += ['directed'] + ([f'{rule}:premise'] if c2 == rw else [])
+                out.append(c)
+    for rule, param, base, w, bi in JOIN_WITNESSES:
+        nb = join_above(base[bi][0], w)
+        out.append(_mk(rule, param, base, replace_unit(base, bi, nb), w, 'join', {'kind': 'join', 'ballot': bi},
+                       [f'{rule}:join', f'{rule}:premise', 'directed', 'join_rule_level_failure']))
     # highest averages: exact quotient tie at the last seat, cap binding, previous gains
     cfg = {'divisor': 'd_hondt', 'first_coef': None, 'votes': [[0, '6'], [1, '3'], [2, '3']], 'n': 3, 'prev': [], 'max': []}
     out += [dict(c, _tags=c['_tags'] + ['directed', 'ha:tie_in_base']) for c in ha_pairs(cfg, [])]
@@ -1727,6 +1900,10 @@ def _generate(rng, tier):
         yield c
     for c in gen_pa(rng, 60 if quick else 1200):
         yield c
+    for c in gen_pa_crossing(rng, 25 if quick else 300):
+        yield c
+    for c in gen_join_long(rng, 170 if quick else 2000):
+        yield c
     for c in gen_big_near_tie(rng, 6 if quick else 120):
         yield c
     for c in gen_approval(rng, 150 if quick else 3000):
@@ -1781,7 +1958,10 @@ REQUIRED_COUNTERS = (['ha:house', 'ha:votes', 'ha:caps', 'ha:prev_gains', 'ha:ti
                       'score_sum:unscored_None', 'score_sum:unscored_0', 'score_sum:unscored_1', 'score_sum:unscored_2',
                       'score_sum:unscored_5', 'score_sum:unscored_min', 'bucklin_two_shared_ranks', 'minimax_unbeaten_after_move',
                       'bucklin_second_round', 'bucklin_split_collision', 'lift_unranked', 'lift_out_of_shared', 'unit_of_heavier_ballot',
-                      'merges_with_existing', 'fractional_weight', 'new_full_rule_level_failure', 'bucklin:lift_out_of_shared3', 'bucklin_coef:list_shorter_than_ballot',
+                      'merges_with_existing', 'fractional_weight', 'new_full_rule_level_failure', 'bucklin:lift_out_of_shared3', 'bucklin_coef:list_shorter_than_ballot', 'pa_list_whole:lift_out_of_shared_below_first',
+                      'pa_call_whole:lift_out_of_shared_below_first', 'bucklin_whole:lift_out_of_shared_below_first',
+                      'whole:lift_just_above_former_co_ranked', 'pa_crossing', 'join_shortens_longest_ballot',
+                      'join_existing_shared_rank', 'join_rule_level_failure',
                       'bucklin_coef:lift_beyond_list_end', 'bucklin_coef:list_covers_ballots', 'bucklin_coef:callable',
                       'names:int0', 'names:empty0', 'names:person', 'state:shared', 'state:shared_rev', 'weights:dec', 'weights:frac',
                       'score_sum:scores_half', 'score_sum:scores_neg', 'score_sum:scores_dec7', 'score_sum:stype_dec',
@@ -1792,6 +1972,7 @@ REQUIRED_COUNTERS = (['ha:house', 'ha:votes', 'ha:caps', 'ha:prev_gains', 'ha:ti
                       'geometric:param_3', 'geometric:param_10', 'fixed_top:param_5', 'sequence:param_10x4x4x1',
                       'sequence:param_5x3x1', 'copeland:param_0', 'copeland:param_1']
                      + [f'{r}:big_near_tie' for r in ['plurality', 'approval'] + RANKED_RULES]
+                     + [f'{r}:join' for r in RANKED_RULES]
                      + [f'{r}:no_cw_4plus' for r in ['copeland', 'minimax_wv', 'minimax_margins', 'minimax_pwo', 'schulze']]
                      + [f'{r}:new_full' for r in ['bucklin', 'bucklin_whole', 'copeland', 'minimax_wv', 'minimax_margins', 'schulze']]
                      + [f'{r}:{k}' for r in RANKED_RULES for k in ('lift', 'new', 'premise')])
